@@ -74,7 +74,12 @@ func (t *websocketTransport) Send(ctx context.Context, e envelope) error {
 		// Effectively fails all pending write operations before returning.
 		// Note that this makes the encoder to be in a permanent error state.
 		_ = conn.SetWriteDeadline(time.Now())
-		<-errChan
+		if err := <-errChan; err == nil {
+			// The envelope was completely written before the context was done,
+			// so the operation succeeded (and the connection is still usable).
+			_ = conn.SetWriteDeadline(time.Time{})
+			return nil
+		}
 		return fmt.Errorf("ws transport: send: %w", ctx.Err())
 	case err := <-errChan:
 		if err != nil {
